@@ -400,7 +400,13 @@ func TestReplay(t *testing.T) {
 	}
 }
 
+// strictReplay: while a saved case is replayed, no known-finding exclusion applies
+// (the property itself is evaluated on that case).
+var strictReplay bool
+
 func replayOne(path string) string {
+	strictReplay = true
+	defer func() { strictReplay = false }()
 	b, err := os.ReadFile(path)
 	if err != nil {
 		return "cannot read: " + err.Error()
@@ -458,6 +464,9 @@ func loadFindings() []finding {
 
 // knownActive reports whether finding id is listed as a known (unrepaired) finding.
 func knownActive(id string) bool {
+	if strictReplay {
+		return false
+	}
 	for _, f := range loadFindings() {
 		if f.ID == id && f.Status == "known" {
 			return true
